@@ -544,4 +544,337 @@ theorem delete_ok {c : Coll} {q : Doc} {sort : Option Doc} {skip limit : Int} {l
   exact ⟨⟨c.docs.filter (fun sd => !(list.any (·.id == sd.id))), idx'⟩, by
     unfold Coll.delete; simp only [hsel, hf]⟩
 
+/-! ### `Coll.replace` -/
+
+theorem replace_upd_mem {old nw : SDoc} : ∀ {idx idx' : List (String × Index)},
+    Coll.replace.upd sch old nw idx = .ok idx' → ∀ n i', (n, i') ∈ idx' →
+      ∃ i i1, (n, i) ∈ idx ∧ i.remove sch old = .ok (i1, true) ∧ i1.add sch nw = .ok (i', true)
+  | [], idx', h, n, i', hm => by
+    simp only [Coll.replace.upd, Except.ok.injEq] at h; subst h; cases hm
+  | (m, j) :: r, idx', h, n, i', hm => by
+    rw [Coll.replace.upd] at h
+    split at h
+    · cases h
+    · cases h
+    · rename_i j1 hj1
+      split at h
+      · cases h
+      · cases h
+      · rename_i j2 hj2
+        split at h
+        · cases h
+        · rename_i r' hr
+          simp only [Except.ok.injEq] at h; subst h
+          rcases List.mem_cons.mp hm with e | hm
+          · simp only [Prod.mk.injEq] at e
+            obtain ⟨rfl, rfl⟩ := e
+            exact ⟨j, j1, by simp, hj1, hj2⟩
+          · obtain ⟨i, i1, hi, h1, h2⟩ := replace_upd_mem hr n i' hm
+            exact ⟨i, i1, List.mem_cons_of_mem _ hi, h1, h2⟩
+
+theorem replace_upd_shape {old nw : SDoc} : ∀ {idx idx' : List (String × Index)},
+    Coll.replace.upd sch old nw idx = .ok idx' → shape idx' = shape idx
+  | [], idx', h => by
+    simp only [Coll.replace.upd, Except.ok.injEq] at h; subst h; rfl
+  | (m, j) :: r, idx', h => by
+    rw [Coll.replace.upd] at h
+    split at h
+    · cases h
+    · cases h
+    · rename_i j1 hj1
+      split at h
+      · cases h
+      · cases h
+      · rename_i j2 hj2
+        split at h
+        · cases h
+        · rename_i r' hr
+          simp only [Except.ok.injEq] at h; subst h
+          simp only [shape, List.map_cons, List.cons.injEq, Prod.mk.injEq, true_and]
+          exact ⟨by rw [(add_shape hj2).1, (remove_shape hj1).1], replace_upd_shape hr⟩
+
+/-- the successful outcomes of `Coll.replace` -/
+theorem replace_spec {c : Coll} {q repl : Doc} {sort : Option Doc} {nu nu' : Nu} {res : CResult}
+    (h : c.replace sch q repl sort nu = .ok (res, nu')) :
+    (res.coll = c ∧ nu' = nu ∧ res.matched = [] ∧ res.modified = []) ∨
+    ∃ old repl' idx', old ∈ c.docs ∧ nu'.nextId = nu.nextId + 1 ∧
+      Coll.replace.upd sch old ⟨nu.nextId, repl'⟩ c.indexes = .ok idx' ∧
+      res.coll = ⟨replaceDoc c.docs old.id ⟨nu.nextId, repl'⟩, idx'⟩ ∧
+      (∀ m ∈ res.modified, m = ⟨nu.nextId, repl'⟩) := by
+  unfold Coll.replace at h
+  split at h
+  · cases h
+  · simp only [Except.ok.injEq, Prod.mk.injEq] at h
+    obtain ⟨h1, h2⟩ := h
+    subst h1; exact .inl ⟨rfl, h2.symm, rfl, rfl⟩
+  · rename_i old rest hsel
+    simp only at h
+    split at h
+    · cases h
+    · rename_i repl' _
+      simp only [Nu.fresh] at h
+      split at h
+      · cases h
+      · rename_i idx' hupd
+        simp only [Except.ok.injEq, Prod.mk.injEq] at h
+        obtain ⟨h1, h2⟩ := h
+        subst h1
+        refine .inr ⟨old, repl', idx', selectDocs_mem hsel old (by simp), by rw [← h2], hupd, rfl, ?_⟩
+        intro m hm
+        simp only at hm
+        split at hm
+        · cases hm
+        · simpa using hm
+
+theorem Coherent.replace {c : Coll} {q repl : Doc} {sort : Option Doc} {nu nu' : Nu} {res : CResult}
+    (hc : Coherent sch c) (hb : IdsBelow c.docs nu.nextId)
+    (h : c.replace sch q repl sort nu = .ok (res, nu')) :
+    Coherent sch res.coll ∧ IdsBelow res.coll.docs nu'.nextId ∧ nu.nextId ≤ nu'.nextId := by
+  rcases replace_spec h with ⟨h1, h2, _, _⟩ | ⟨old, repl', idx', hold, hn, hupd, hcoll, _⟩
+  · rw [h1, h2]; exact ⟨hc, hb, Nat.le_refl _⟩
+  · rw [hcoll, hn]
+    refine ⟨⟨hc.1.replaceDoc (fun x hx => hb.fresh x hx), ?_⟩,
+      (hb.mono (Nat.le_succ _)).replaceDoc (Nat.lt_succ_self _), Nat.le_succ _⟩
+    intro n i' hm
+    obtain ⟨i, i1, hi, hrem, hadd⟩ := replace_upd_mem hupd n i' hm
+    have h1 := (hc.2 n i hi).remove (fun x hx e => ids_inj hc.1 x hx old hold e) hrem
+    exact (h1.add hadd).congr (fun x => by
+      rw [mem_replaceDoc]
+      constructor
+      · rintro (hx | ⟨rfl, _⟩)
+        · exact .inl hx
+        · exact .inr rfl
+      · rintro (hx | rfl)
+        · exact .inl hx
+        · exact .inr ⟨rfl, old, hold, rfl⟩)
+
+theorem Unique.replace {c : Coll} {q repl : Doc} {sort : Option Doc} {nu nu' : Nu} {res : CResult}
+    (hc : Coherent sch c) (hu : Unique sch c) (hok : DocsOk c.docs) (hok' : DocsOk res.coll.docs)
+    (h : c.replace sch q repl sort nu = .ok (res, nu')) : Unique sch res.coll := by
+  rcases replace_spec h with ⟨h1, _⟩ | ⟨old, repl', idx', hold, hn, hupd, hcoll, _⟩
+  · rw [h1]; exact hu
+  · have hnw : DocOk repl' := by
+      have := hok' ⟨nu.nextId, repl'⟩ (by
+        rw [hcoll]; exact mem_replaceDoc.mpr (.inr ⟨rfl, old, hold, rfl⟩))
+      exact this
+    rw [hcoll]
+    intro n i' hm
+    obtain ⟨i, i1, hi, hrem, hadd⟩ := replace_upd_mem hupd n i' hm
+    have c1 := (hc.2 n i hi).remove (fun x hx e => ids_inj hc.1 x hx old hold e) hrem
+    obtain ⟨s1, s2⟩ := remove_shape hrem
+    have u1 : IndexUnique sch (fun x => x ∈ c.docs ∧ x.id ≠ old.id) i1 :=
+      (hu n i hi).mono (fun x hx => hx.1) s1 s2
+    have u2 := u1.add c1 (fun x hx => hok x hx.1) hnw hadd
+    exact u2.mono (fun x hx => by
+      rcases mem_replaceDoc.mp hx with hx | ⟨rfl, _⟩
+      · exact .inl hx
+      · exact .inr rfl) rfl rfl
+
+/-! ### `Coll.update`: remove all matched documents, then add all updated ones -/
+
+theorem applyAll_spec {ac : ACtx} {update : Doc} {filters : List Doc} :
+    ∀ {list : List SDoc} {nu nu' : Nu} {news : List (SDoc × List (String × V))},
+    Coll.update.applyAll ac update filters nu list = .ok (news, nu') →
+      news.map (·.1.id) = List.range' nu.nextId list.length ∧ nu'.nextId = nu.nextId + list.length
+  | [], nu, nu', news, h => by
+    simp only [Coll.update.applyAll, Except.ok.injEq, Prod.mk.injEq] at h
+    obtain ⟨rfl, rfl⟩ := h; simp
+  | sd :: r, nu, nu', news, h => by
+    rw [Coll.update.applyAll] at h
+    split at h
+    · cases h
+    · simp only [Nu.fresh] at h
+      split at h
+      · cases h
+      · rename_i rest nu2 hr
+        simp only [Except.ok.injEq, Prod.mk.injEq] at h
+        obtain ⟨rfl, rfl⟩ := h
+        obtain ⟨h1, h2⟩ := applyAll_spec hr
+        simp only at h1 h2
+        refine ⟨?_, by rw [h2, List.length_cons]; omega⟩
+        simp only [List.map_cons, List.length_cons, List.range'_succ, h1]
+
+theorem applyAll_length {ac : ACtx} {update : Doc} {filters : List Doc}
+    {list : List SDoc} {nu nu' : Nu} {news : List (SDoc × List (String × V))}
+    (h : Coll.update.applyAll ac update filters nu list = .ok (news, nu')) :
+    news.length = list.length := by
+  have := congrArg List.length (applyAll_spec h).1
+  simpa using this
+
+/-- the document list after replacing each old document by its successor -/
+theorem foldl_replaceDoc_spec {α : Type} : ∀ (pairs : List (SDoc × SDoc × α)) (docs : List SDoc),
+    IdsDistinct docs → (∀ p ∈ pairs, p.1 ∈ docs) → (pairs.map (·.1.id)).Nodup →
+    (∀ p ∈ pairs, ∀ x ∈ docs, x.id ≠ p.2.1.id) → (pairs.map (·.2.1.id)).Nodup →
+    IdsDistinct (pairs.foldl (fun ds p => replaceDoc ds p.1.id p.2.1) docs) ∧
+    ∀ x, x ∈ pairs.foldl (fun ds p => replaceDoc ds p.1.id p.2.1) docs ↔
+      (x ∈ docs ∧ ∀ p ∈ pairs, x.id ≠ p.1.id) ∨ (∃ p ∈ pairs, x = p.2.1)
+  | [], docs, hd, _, _, _, _ => ⟨hd, fun x => by simp⟩
+  | p :: r, docs, hd, hold, hond, hfresh, hnnd => by
+    rw [List.foldl_cons]
+    rw [List.map_cons, List.nodup_cons] at hond hnnd
+    have hp : p.1 ∈ docs := hold p (by simp)
+    have hd1 : IdsDistinct (replaceDoc docs p.1.id p.2.1) :=
+      hd.replaceDoc (hfresh p (by simp))
+    have hold1 : ∀ p' ∈ r, p'.1 ∈ replaceDoc docs p.1.id p.2.1 := fun p' hp' =>
+      mem_replaceDoc.mpr (.inl ⟨hold p' (List.mem_cons_of_mem _ hp'), fun e =>
+        hond.1 (List.mem_map.mpr ⟨p', hp', e⟩)⟩)
+    have hfresh1 : ∀ p' ∈ r, ∀ x ∈ replaceDoc docs p.1.id p.2.1, x.id ≠ p'.2.1.id := by
+      intro p' hp' x hx
+      rcases mem_replaceDoc.mp hx with ⟨hx1, _⟩ | ⟨rfl, _⟩
+      · exact hfresh p' (List.mem_cons_of_mem _ hp') x hx1
+      · exact fun e => hnnd.1 (List.mem_map.mpr ⟨p', hp', e.symm⟩)
+    obtain ⟨ih1, ih2⟩ := foldl_replaceDoc_spec r _ hd1 hold1 hond.2 hfresh1 hnnd.2
+    refine ⟨ih1, fun x => ?_⟩
+    rw [ih2 x, mem_replaceDoc]
+    constructor
+    · rintro (⟨⟨hx1, hx2⟩ | ⟨rfl, _⟩, hx3⟩ | ⟨p', hp', rfl⟩)
+      · exact .inl ⟨hx1, fun p' hp' => by
+          rcases List.mem_cons.mp hp' with rfl | hp'
+          · exact hx2
+          · exact hx3 p' hp'⟩
+      · exact .inr ⟨p, by simp, rfl⟩
+      · exact .inr ⟨p', List.mem_cons_of_mem _ hp', rfl⟩
+    · rintro (⟨hx1, hx2⟩ | ⟨p', hp', rfl⟩)
+      · exact .inl ⟨.inl ⟨hx1, hx2 p (by simp)⟩, fun p' hp' => hx2 p' (List.mem_cons_of_mem _ hp')⟩
+      · rcases List.mem_cons.mp hp' with rfl | hp'
+        · refine .inl ⟨.inr ⟨rfl, p'.1, hp, rfl⟩, fun p'' hp'' => ?_⟩
+          exact (hfresh p' (by simp) p''.1 (hold p'' (List.mem_cons_of_mem _ hp''))).symm
+        · exact .inr ⟨p', hp', rfl⟩
+
+/-- the successful outcomes of `Coll.update` -/
+theorem update_spec {ac : ACtx} {c : Coll} {q u : Doc} {sort : Option Doc} {skip limit : Int}
+    {filters : List Doc} {nu nu' : Nu} {res : CResult}
+    (h : c.update ac q u sort skip limit filters nu = .ok (res, nu')) :
+    (res.coll = c ∧ nu' = nu ∧ res.matched = [] ∧ res.modified = []) ∨
+    ∃ list news idx1 idx2, selectDocs ac.sch c q sort skip limit = .ok list ∧
+      Coll.update.applyAll ac u filters nu list = .ok (news, nu') ∧
+      foldIdx (fun idx sd => removeFromIndexes ac.sch sd idx) c.indexes list = .ok idx1 ∧
+      foldIdx (fun idx sd => addToIndexes ac.sch sd idx) idx1 (news.map (·.1)) = .ok idx2 ∧
+      res.coll = ⟨(list.zip news).foldl (fun ds p => replaceDoc ds p.1.id p.2.1) c.docs, idx2⟩ ∧
+      (∀ m ∈ res.modified, m ∈ news.map (·.1)) := by
+  unfold Coll.update at h
+  simp only at h
+  split at h
+  · cases h
+  · simp only [Except.ok.injEq, Prod.mk.injEq] at h
+    obtain ⟨h1, h2⟩ := h
+    subst h1; exact .inl ⟨rfl, h2.symm, rfl, rfl⟩
+  · rename_i list _ hsel
+    split at h
+    · cases h
+    · rename_i news nu2 hap
+      split at h
+      · cases h
+      · split at h
+        · cases h
+        · rename_i idx1 hrem
+          split at h
+          · cases h
+          · rename_i idx2 hadd
+            simp only [Except.ok.injEq, Prod.mk.injEq] at h
+            obtain ⟨h1, h2⟩ := h
+            subst h1 h2
+            refine .inr ⟨list, news, idx1, idx2, hsel, hap, hrem, hadd, ?_, ?_⟩
+            · rfl
+            · intro m hm
+              simp only [List.mem_map] at hm ⊢
+              obtain ⟨p, hp, rfl⟩ := hm
+              have := (List.mem_filter.mp hp).1
+              exact ⟨p.2, (List.of_mem_zip this).2, rfl⟩
+
+/-- facts about the (old, new) pairs of a multi-update -/
+theorem update_pairs_facts {ac : ACtx} {u : Doc} {filters : List Doc} {c : Coll} {list : List SDoc}
+    {nu nu' : Nu} {news : List (SDoc × List (String × V))}
+    (hd : IdsDistinct c.docs) (hb : IdsBelow c.docs nu.nextId)
+    (hmem : ∀ o ∈ list, o ∈ c.docs) (hdl : IdsDistinct list)
+    (hap : Coll.update.applyAll ac u filters nu list = .ok (news, nu')) :
+    let docs' := (list.zip news).foldl (fun ds p => replaceDoc ds p.1.id p.2.1) c.docs
+    IdsDistinct docs' ∧
+    (∀ x, x ∈ docs' ↔ (x ∈ c.docs ∧ ∀ o ∈ list, x.id ≠ o.id) ∨ x ∈ news.map (·.1)) ∧
+    (∀ x ∈ news.map (·.1), nu.nextId ≤ x.id ∧ x.id < nu'.nextId) ∧
+    nu'.nextId = nu.nextId + list.length := by
+  intro docs'
+  obtain ⟨hids, hn⟩ := applyAll_spec hap
+  have hlen := applyAll_length hap
+  have e1 : (list.zip news).map Prod.fst = list := List.map_fst_zip (by omega)
+  have e2 : (list.zip news).map Prod.snd = news := List.map_snd_zip (by omega)
+  have e1' : (list.zip news).map (fun p => p.1.id) = list.map (·.id) := by
+    have := congrArg (List.map (·.id)) e1
+    simpa [List.map_map, Function.comp_def] using this
+  have e2' : (list.zip news).map (fun p => p.2.1.id) = List.range' nu.nextId list.length := by
+    have := congrArg (List.map (·.1.id)) e2
+    rw [hids] at this
+    simpa [List.map_map, Function.comp_def] using this
+  have hrange : ∀ x ∈ news.map (·.1), nu.nextId ≤ x.id ∧ x.id < nu'.nextId := by
+    intro x hx
+    obtain ⟨p, hp, rfl⟩ := List.mem_map.mp hx
+    have : p.1.id ∈ news.map (·.1.id) := List.mem_map.mpr ⟨p, hp, rfl⟩
+    rw [hids, List.mem_range'] at this
+    obtain ⟨k, hk, he⟩ := this
+    omega
+  have hold : ∀ p ∈ list.zip news, p.1 ∈ c.docs := fun p hp => hmem p.1 (List.of_mem_zip hp).1
+  have hfresh : ∀ p ∈ list.zip news, ∀ x ∈ c.docs, x.id ≠ p.2.1.id := by
+    intro p hp x hx e
+    have h1 := hb x hx
+    have h2 := (hrange p.2.1 (List.mem_map.mpr ⟨p.2, (List.of_mem_zip hp).2, rfl⟩)).1
+    omega
+  obtain ⟨r1, r2⟩ := foldl_replaceDoc_spec (list.zip news) c.docs hd hold
+    (by rw [e1']; exact hdl) hfresh (by rw [e2']; exact List.nodup_range' 1)
+  refine ⟨r1, fun x => ?_, hrange, hn⟩
+  rw [r2 x]
+  have a1 : (∀ p ∈ list.zip news, x.id ≠ p.1.id) ↔ ∀ o ∈ list, x.id ≠ o.id := by
+    constructor
+    · intro h o ho
+      rw [← e1] at ho
+      obtain ⟨p, hp, rfl⟩ := List.mem_map.mp ho
+      exact h p hp
+    · intro h p hp; exact h p.1 (List.of_mem_zip hp).1
+  have a2 : (∃ p ∈ list.zip news, x = p.2.1) ↔ x ∈ news.map (·.1) := by
+    constructor
+    · rintro ⟨p, hp, rfl⟩
+      exact List.mem_map.mpr ⟨p.2, (List.of_mem_zip hp).2, rfl⟩
+    · intro h
+      obtain ⟨n, hn', rfl⟩ := List.mem_map.mp h
+      rw [← e2] at hn'
+      obtain ⟨p, hp, rfl⟩ := List.mem_map.mp hn'
+      exact ⟨p, hp, rfl⟩
+  rw [a1, a2]
+
+theorem Coherent.update {ac : ACtx} {c : Coll} {q u : Doc} {sort : Option Doc} {skip limit : Int}
+    {filters : List Doc} {nu nu' : Nu} {res : CResult}
+    (hc : Coherent ac.sch c) (hb : IdsBelow c.docs nu.nextId)
+    (h : c.update ac q u sort skip limit filters nu = .ok (res, nu')) :
+    Coherent ac.sch res.coll ∧ IdsBelow res.coll.docs nu'.nextId ∧ nu.nextId ≤ nu'.nextId := by
+  rcases update_spec h with ⟨h1, h2, _, _⟩ | ⟨list, news, idx1, idx2, hsel, hap, hrem, hadd, hcoll, _⟩
+  · rw [h1, h2]; exact ⟨hc, hb, Nat.le_refl _⟩
+  · have hmem := selectDocs_mem hsel
+    have hdl := selectDocs_distinct hsel hc.1
+    obtain ⟨f1, f2, f3, f4⟩ := update_pairs_facts hc.1 hb hmem hdl hap
+    rw [hcoll]
+    refine ⟨⟨f1, ?_⟩, ?_, by omega⟩
+    · have c1 := foldIdx_remove_coherent hc.2
+        (fun o ho x hx e => ids_inj hc.1 x hx o (hmem o ho) e) hrem
+      exact (foldIdx_add_coherent c1 hadd).congr f2
+    · intro x hx
+      rcases (f2 x).mp hx with ⟨hx1, _⟩ | hx2
+      · have := hb x hx1; omega
+      · exact (f3 x hx2).2
+
+theorem Unique.update {ac : ACtx} {c : Coll} {q u : Doc} {sort : Option Doc} {skip limit : Int}
+    {filters : List Doc} {nu nu' : Nu} {res : CResult}
+    (hc : Coherent ac.sch c) (hb : IdsBelow c.docs nu.nextId) (hu : Unique ac.sch c)
+    (hok : DocsOk c.docs) (hok' : DocsOk res.coll.docs)
+    (h : c.update ac q u sort skip limit filters nu = .ok (res, nu')) : Unique ac.sch res.coll := by
+  rcases update_spec h with ⟨h1, _⟩ | ⟨list, news, idx1, idx2, hsel, hap, hrem, hadd, hcoll, _⟩
+  · rw [h1]; exact hu
+  · have hmem := selectDocs_mem hsel
+    have hdl := selectDocs_distinct hsel hc.1
+    obtain ⟨f1, f2, f3, f4⟩ := update_pairs_facts hc.1 hb hmem hdl hap
+    rw [hcoll] at hok' ⊢
+    have c1 := foldIdx_remove_coherent hc.2
+      (fun o ho x hx e => ids_inj hc.1 x hx o (hmem o ho) e) hrem
+    have u1 := foldIdx_remove_unique hu hrem
+    have hnews : DocsOk (news.map (·.1)) := fun x hx => hok' x ((f2 x).mpr (.inr hx))
+    exact (foldIdx_add_unique c1 u1 (fun x hx => hok x hx.1) hnews hadd).congr f2
+
 end Lungo
